@@ -582,6 +582,56 @@ func vsrvC16Session(r *verifrt.R, c *verifrt.Case, kind string) {
 			input = h2ref.AppendFrame(input, h2ref.Frame{Type: uint8(rng.IntN(12)), Flags: uint8(rng.Uint32()) & vsrvPick[uint8](rng, 0xff, 0x05, 0x0d, 0x2d),
 				StreamID: vsrvPick(rng, 0, 1, 1, 3, 5, 2, uint32(rng.IntN(40))), Payload: vsrvRandBytes(rng, l)})
 		}
+	case "boundary-frames":
+		// Frames whose length, flags and leading length-like octets sit on the edges the
+		// frame parsers have to check: padded frames (with and without the 5 priority
+		// octets) whose Pad Length is within a few octets of the payload length, and
+		// fixed-size frames one octet short / long. 1-3 of them after a valid opening,
+		// the first on a fresh stream so that it is the frame that gets parsed.
+		input = append([]byte(nil), preface...)
+		input = h2ref.AppendSettings(input)
+		sid := uint32(1)
+		for i, n := 0, 1+rng.IntN(3); i < n; i++ {
+			var f h2ref.Frame
+			switch rng.IntN(10) {
+			case 0, 1, 2, 3: // HEADERS with PADDED and/or PRIORITY
+				f.Type = 1
+				f.Flags = vsrvPick[uint8](rng, 0x08, 0x20, 0x28, 0x28, 0x28) | vsrvPick[uint8](rng, 0, 0x04, 0x05, 0x01)
+				f.StreamID = sid
+				sid += 2
+			case 4: // DATA, padded, on a stream opened by a small valid request
+				blk, _ := vsrvC16Request(rng, sid)
+				input = h2ref.AppendFrame(input, h2ref.Frame{Type: 1, Flags: 0x04, StreamID: sid, Payload: blk})
+				f.Type, f.Flags, f.StreamID = 0, 0x08|vsrvPick[uint8](rng, 0, 1), sid
+				sid += 2
+			case 5: // PUSH_PROMISE from a client, padded
+				f.Type, f.Flags, f.StreamID = 5, 0x08|vsrvPick[uint8](rng, 0, 4), vsrvPick(rng, 0, 1, sid)
+			case 6: // CONTINUATION after HEADERS without END_HEADERS
+				blk, _ := vsrvC16Request(rng, sid)
+				input = h2ref.AppendFrame(input, h2ref.Frame{Type: 1, Flags: 0x28 &^ vsrvPick[uint8](rng, 0x28, 0x08, 0x20), StreamID: sid, Payload: append([]byte{0, 0, 0, 0, 0, 0}[:0], blk...)})
+				f.Type, f.Flags, f.StreamID = 9, vsrvPick[uint8](rng, 0, 4, 0x28), sid
+				sid += 2
+			default: // fixed-size frames around their size
+				f.Type = vsrvPick[uint8](rng, 2, 3, 4, 6, 7, 8)
+				f.Flags = vsrvPick[uint8](rng, 0, 1, 0x08, 0x28)
+				f.StreamID = vsrvPick(rng, 0, sid, 1)
+			}
+			want := map[uint8]int{2: 5, 3: 4, 4: 6, 6: 8, 7: 8, 8: 4}[f.Type]
+			l := want + rng.IntN(3) - 1
+			if want == 0 {
+				l = rng.IntN(14)
+			}
+			if l < 0 {
+				l = 0
+			}
+			f.Payload = vsrvRandBytes(rng, l)
+			if l > 0 && f.Flags&0x08 != 0 && (f.Type == 0 || f.Type == 1 || f.Type == 5) {
+				// Pad Length from len-7 .. len+1
+				f.Payload[0] = byte(max(0, l-7+rng.IntN(9)))
+			}
+			d.Notes = append(d.Notes, fmt.Sprintf("type %d flags %#x stream %d payload %x", f.Type, f.Flags, f.StreamID, f.Payload))
+			input = h2ref.AppendFrame(input, f)
+		}
 	case "mutated":
 		fs := vsrvC16ValidFrames(rng)
 		body := vsrvC16Mutate(rng, fs, &d.Notes)
@@ -656,7 +706,7 @@ func vsrvC16Session(r *verifrt.R, c *verifrt.Case, kind string) {
 func TestVerif_C16(t *testing.T) {
 	r := verifrt.Start(t, "C16")
 	defer r.Finish()
-	r.SetRule("one case = one server connection fed a generated client byte stream in PRNG chunks (with quiescent points, virtual sleeps, and for floods a client that does not read): random bytes without / after a valid preface, random frames (valid 9-byte headers, random type/flags/stream/payload), protocol-valid open-loop sessions, the same sessions damaged by 1-3 of {bit flips, length lie, swap, duplicate, delete, retype, restream, reflag, scramble payload} plus truncation, and 12 kinds of floods (PING, SETTINGS, HEADERS+RST_STREAM, empty CONTINUATION, empty DATA, WINDOW_UPDATE, zero WINDOW_UPDATE, DATA on closed stream, malformed HEADERS, PRIORITY, unknown type, over-limit opens; 50-25000 frames). non-trivial = the server got past the preface far enough to emit more than its two opening frames or to start a handler; distinct = hash of the input bytes")
+	r.SetRule("one case = one server connection fed a generated client byte stream in PRNG chunks (with quiescent points, virtual sleeps, and for floods a client that does not read): random bytes without / after a valid preface, random frames (valid 9-byte headers, random type/flags/stream/payload), protocol-valid open-loop sessions, the same sessions damaged by 1-3 of {bit flips, length lie, swap, duplicate, delete, retype, restream, reflag, scramble payload} plus truncation, and frames on the parsers' length edges (padded HEADERS/DATA/PUSH_PROMISE with and without priority octets whose Pad Length is within a few octets of the payload length; fixed-size frames one octet short or long), and 12 kinds of floods (PING, SETTINGS, HEADERS+RST_STREAM, empty CONTINUATION, empty DATA, WINDOW_UPDATE, zero WINDOW_UPDATE, DATA on closed stream, malformed HEADERS, PRIORITY, unknown type, over-limit opens; 50-25000 frames). non-trivial = the server got past the preface far enough to emit more than its two opening frames or to start a handler; distinct = hash of the input bytes")
 	r.Assume("no-panic = serve-loop panic hook + recovered harness goroutines + child exit status; 'keeps serving or ends the connection' = after the input, all server timers (read from the package constants) and a full read of the server's output: connection closed with the connection goroutine finished, or a probe PING answered (a partial trailing frame is first completed with zero bytes); bounds are sampled on the serve goroutine through serveMsgCh at quiescent points")
 
 	kinds := []string{"random-nopreface", "random-afterpreface", "random-frames", "random-frames", "mutated", "mutated", "mutated", "mutated", "valid"}
@@ -671,6 +721,10 @@ func TestVerif_C16(t *testing.T) {
 	r.CasesParallel("flood", r.N(36, 600), 0, func(c *verifrt.Case) {
 		vsrvC16Session(r, c, "flood:"+vsrvC16FloodKinds[c.Index%len(vsrvC16FloodKinds)])
 	})
+	r.CasesParallel("boundary", r.N(600, 12000), 0, func(c *verifrt.Case) {
+		vsrvC16Session(r, c, "boundary-frames")
+	})
+	r.Require("kind_boundary-frames", 300)
 	r.Require("serve_loop_samples", 200)
 	r.Require("probe_ping_answered", 40)
 	r.Require("server_goaway", 100)
